@@ -456,8 +456,9 @@ def run(ctx):
                     for v in vals:
                         if v[0] == "plus" and b is not None and v[1] is not None:
                             allowed_seen["select_from_file"] = b | v[1]
-                            r6.check(any("select_one_from_file" in g and "select_multiple_from_file" in g for g in v[2]), "allowed:select_from_file guard",
-                                     "value/label are allowed only for select-from-file commands", fn.loc(c))
+                            # which commands get them is decided by evaluating the guard over the alias table (C13.R1's rule)
+                            from .c13 import from_file_params_obligations
+                            from_file_params_obligations(ctx, r6, "C04.R6")
                     continue
                 okc, v = const_str(ctx, fn.module, a)
                 if okc:
